@@ -4,3 +4,33 @@
 
 package serverid
 
+//@ global v6ServerID written-by setup6
+//@ global v4ServerID written-by setup4
+//@ plugin-invariant[setup4,Handler4] v4ServerID != nil && len(v4ServerID) == 4
+//@ plugin-invariant[setup6,Handler6] v6ServerID != nil
+
+// DHCPv4 (C14): requests naming another server - in siaddr or in option 54 - are dropped;
+// otherwise the reply carries this server's address in siaddr and option 54.
+//@ pure func names_other4(h Array[Loc]bv8, ip net.IP, me net.IP) bool = ip != nil && !ipeqh(h, ip, net.IPv4zero) && !ipeqh(h, ip, me)
+//@ pure func for_other_server4(h Array[Loc]bv8, req *dhcpv4.DHCPv4, me net.IP) bool = names_other4(h, req.ServerIPAddr, me) || (has(req.Options, 54) && names_other4(h, opt54ip(req.Options[54]), me))
+//@ func Handler4
+//@   implements handler.Handler4
+//@   modifies everything
+//@   ensures[C14:drop-iff-for-other-server] (ret0 == nil) <==> (req.OpCode == 1 && old(for_other_server4(heap8(), req, v4ServerID)))
+//@   ensures[C14:own-identifier-in-reply] (ret0 != nil && req.OpCode == 1) ==> (ret0 == resp && !ret1 && len(resp.ServerIPAddr) == 4 && u32be(resp.ServerIPAddr) == u32be(v4ServerID) && \
+//@       has(resp.Options, 54) && resp.Options[54] == optenc(opt_ip(54, v4ServerID)))
+//@   ensures[C14:other-options-untouched] ret0 != nil ==> (forall k uint8: k != 54 ==> ((has(resp.Options, k) <==> old(has(resp.Options, k))) && resp.Options[k] == old(resp.Options[k])))
+
+// DHCPv6 (C14, RFC 8415 section 16)
+//@ pure func must_not_have_sid(t uint8) bool = t == 1 || t == 4 || t == 6
+//@ pure func must_have_sid(t uint8) bool = t == 3 || t == 5 || t == 9 || t == 8
+//@ pure func discard6(m *dhcpv6.Message, me dhcpv6.DUID) bool = (sid6(m.Options) != nil && (must_not_have_sid(uint8(m.MessageType)) || !duideq(sid6(m.Options), me))) || \
+//@     (sid6(m.Options) == nil && must_have_sid(uint8(m.MessageType)))
+//@ func Handler6
+//@   implements handler.Handler6
+//@   modifies everything
+//@   ensures[C14:discard-per-rfc8415-16] (ret0 == nil) <==> discard6(inner6(req), v6ServerID)
+//@   ensures[C14:own-duid-in-reply] ret0 != nil ==> (ret0 == resp && !ret1 && \
+//@       optn6(resp.(*dhcpv6.Message))[2] == ite(old(optn6(resp.(*dhcpv6.Message))[2]) == 0, 1, old(optn6(resp.(*dhcpv6.Message))[2])) && \
+//@       (old(optn6(resp.(*dhcpv6.Message))[2]) <= 1 ==> optlast6(resp.(*dhcpv6.Message))[2] == o6_sid(v6ServerID)))
+//@   ensures[C14:other-options-untouched] ret0 != nil ==> (forall k uint16: k != 2 ==> (optn6(resp.(*dhcpv6.Message))[k] == old(optn6(resp.(*dhcpv6.Message))[k]) && optlast6(resp.(*dhcpv6.Message))[k] == old(optlast6(resp.(*dhcpv6.Message))[k])))
